@@ -79,17 +79,17 @@ func (p *PrecTable) Resolve(rule, term int) int {
 
 // CellStats counts what CompareCells saw.
 type CellStats struct {
-	States, Cells                               int
-	Lr0Reduce                                   int // states reducing without lookahead
-	Lr0WithLookahead                            int // single-reduction states that nevertheless consult the lookahead
-	ErrorCells, ShiftCells, ReduceCells         int
-	SRUndecided, RRUnresolved                   int // definite conflicts
-	ResolvedShift, ResolvedReduce, ResolvedErr  int // shift + one reduce decided by precedence
-	Murky                                       int // shift + several reductions with mixed decisions
-	MultiAllShift                               int // shift + several reductions, every pair decided as shift
-	LookaheadCells                              int // cells resolved by a runtime-lookahead rule
-	LookaheadPartial                            int // conflicts involving lookahead rules and something else
-	RefSR, RefRR                                int // exact counts when Murky == 0
+	States, Cells                              int
+	Lr0Reduce                                  int // states reducing without lookahead
+	Lr0WithLookahead                           int // single-reduction states that nevertheless consult the lookahead
+	ErrorCells, ShiftCells, ReduceCells        int
+	SRUndecided, RRUnresolved                  int // definite conflicts
+	ResolvedShift, ResolvedReduce, ResolvedErr int // shift + one reduce decided by precedence
+	Murky                                      int // shift + several reductions with mixed decisions
+	MultiAllShift                              int // shift + several reductions, every pair decided as shift
+	LookaheadCells                             int // cells resolved by a runtime-lookahead rule
+	LookaheadPartial                           int // conflicts involving lookahead rules and something else
+	RefSR, RefRR                               int // exact counts when Murky == 0
 }
 
 // CompareCells compares every (state, terminal) action of the tables with the
